@@ -431,7 +431,7 @@ def op_candidates(M, a, b):
     return out
 
 
-def mutants_code(S, M, a, b, partner, single_statement=False):
+def mutants_code(S, M, a, b, partner, single_statement=False, site=False):
     """mutants of the code unit S[a:b] (a..b = interior of a body, or a statement range): list of (kind, description, new text of S)"""
     stmts = [s for s in statements(M, a, b, partner)]
     stmts.sort(key=lambda s: (s["start"], -s["end"]))
@@ -452,8 +452,10 @@ def mutants_code(S, M, a, b, partner, single_statement=False):
     is_void = not re.search(r"\breturn\s+[^;]", M[a:b])
     terminal = re.compile(r"\s*(return|break|continue|throw)\b")
     # insertion points: after a statement that does not end the control flow, not the last of a value-returning body
+    last0 = max([s["start"] for s in stmts if s["depth"] == 0] or [-1])
     points = [k for k, s in enumerate(stmts) if s["kind"] in ("simple", "ctrl") and not terminal.match(M[s["start"]:s["end"]])
-              and not (single_statement and s["depth"] == 0)]
+              and not (single_statement and s["depth"] == 0)
+              and not (site and s["depth"] == 0 and s["start"] == last0)]          # after the last statement of a site = outside the unit
     # (a) extra side effect
     for k in spread(points, 3):
         s = stmts[k]
@@ -826,7 +828,7 @@ def discover(t, rels, pool, base, verbose):
             last = [s for s in sts if m2 and s["start"] <= m2.start() < s["end"]]
             if last:
                 b_ = last[0]["end"]; single = False
-        units.append(dict(file=rel, name="%s@%d" % (st[2], S.count("\n", 0, a) + 1), mode="code", a=a, b=b_, single=single))
+        units.append(dict(file=rel, name="%s@%d" % (st[2], S.count("\n", 0, a) + 1), mode="code", a=a, b=b_, single=single, site=True))
     # macro tables
     for tb in TABLES:
         if tb[0] != t:
@@ -848,7 +850,7 @@ def discover(t, rels, pool, base, verbose):
 def unit_mutants(u, info):
     S, M, partner, B = info[u["file"]]
     if u["mode"] == "code":
-        return mutants_code(S, M, u["a"], u["b"], partner, single_statement=u["single"])
+        return mutants_code(S, M, u["a"], u["b"], partner, single_statement=u["single"], site=u.get("site", False))
     if u["mode"] == "list":
         ents = list_entries(M, u["a"], u["b"], partner)
         return mutants_table(S, M, ents[1:] if len(ents) > 2 else ents, ",", "list")
